@@ -333,3 +333,28 @@ Proof.
   destruct Hall as (pd & Hl & Hc & Hi). destruct (H1 f Ef) as [[Pc Pi] Pih]. rewrite Pih in Pc, Pi.
   exists pd. split; [exact Hl|]. by rewrite <-Pc, <-Pi.
 Qed.
+
+(* ---- C01 on the wire: an accepted UDP announce, in any reachable state, leaves the swarm of its infohash and
+   family listing the announcing peer exactly as the announce implies - as a seeder with the current clock when
+   nothing is left, as a leecher when data is left, moved on `completed`, removed on `stopped` *)
+Theorem udp_announce_membership mac t u ops clock ip packet txid v6a r q :
+  Forall sop_sane ops → wf_bytes packet = true → wf_bytes ip = true → (length ip = 4 ∨ length ip = 16)%nat →
+  UdpParse.handle_udp mac (uc_key u) (uc_skew u) clock (uc_opts u) ip packet = UdpParse.UAnnounce txid v6a r q →
+  let a := ann_of_areq r in
+  ∃ sp' d, udp_step spec_if mac t u (run_spec ops) clock ip packet = Some (sp', [d]) ∧
+    let sw := swarm_of sp' (a_ih a) (a_v6 a) in
+    (plain_event (a_event a) → a_left a = 0 → seeders sw !! a_key a = Some clock) ∧
+    (plain_event (a_event a) → a_left a ≠ 0 → leechers sw !! a_key a = Some clock) ∧
+    (a_event a = EvCompleted → seeders sw !! a_key a = Some clock ∧ leechers sw !! a_key a = None) ∧
+    (a_event a = EvStopped → seeders sw !! a_key a = None ∧ leechers sw !! a_key a = None) ∧
+    (∀ ih, sp' !! (ih, negb (a_v6 a)) = run_spec ops !! (ih, negb (a_v6 a))).
+Proof.
+  intros Hs Hpw Hipw Hip E a.
+  destruct (udp_announce_end_to_end mac t u ops clock ip packet txid v6a r q Hs Hpw Hipw Hip E)
+    as (sp' & d & c & i & ps & Estep & _ & Esp & _).
+  exists sp', d. split; [exact Estep|]. rewrite Esp. fold a. cbn zeta.
+  split; [intros; by apply seeder_listed|]. split; [intros; by apply leecher_listed|].
+  split; [intros H; by apply completed_moves|]. split.
+  - intros H. destruct (stopped_removes a clock (run_spec ops) H) as (H1 & H2 & _). by split.
+  - intros ih. apply announce_other_family_untouched.
+Qed.
